@@ -232,7 +232,7 @@ def main(tier):
     ev.cov["rule"] = RULE
     ev.assumptions = ["every generated identifier resolves (a statement consisting of an unresolvable name is outside the quantifier); AST reflection is never generated",
                       "both evaluations run in one ASan/UBSan-instrumented process with stack-use-after-return detection on"]
-    n = 5000 if tier == "quick" else 300000
+    n = 5000 if tier == "quick" else 60000
     failures = hyp.run("c02", ev, tier, n)
     confirmed = hyp.confirm("c02", failures, PID)
     for p, what in confirmed:
